@@ -369,7 +369,7 @@ func init() {
 		kp := kp
 		Register(&Scenario{
 			Name:  name("tune-down/%s", kp),
-			Props: []string{"C02", "C03", "C18", "C01", "C04"},
+			Props: []string{"C02", "C03", "C18", "C01", "C04", "C17"},
 			Mode:  "NB", Quick: 1, Thorough: 2, Shards: 8,
 			Body: func(h *H) {
 				h.Shape = Gated
@@ -526,7 +526,7 @@ func init() {
 		kp := kp
 		Register(&Scenario{
 			Name:  name("tune-race/%s", kp),
-			Props: []string{"C02", "C03", "C04"},
+			Props: []string{"C02", "C03", "C04", "C17"},
 			Mode:  "NB", Quick: 2, Thorough: 3, Shards: 8,
 			Body: func(h *H) {
 				h.Shape = Gated
